@@ -118,7 +118,7 @@ func clip(b []byte) []byte {
 func TestCheck(t *testing.T) {
 	vfw.Main(t, "C01", func(c *vfw.Ctx) {
 		c.Level("exploration")
-		c.Rule("E1 enumeration: every format code x counts {0,1,2,3, 255/256 and 65535/65536 payload crossings, 2^24-1 cap (quick: 3 types, thorough: all)} x value patterns x Go argument type and shape (scalars, slice, mixed, numeric strings, shortcut constructors); all list trees with <= N nodes over 8 leaves; chains depth 0..64; wide lists at slab boundaries and at 255/256/65535/65536 children. non-trivial = not the empty item; every enumerated case is distinct by construction (desc string is unique)")
+		c.Rule("E1 enumeration: every format code x counts {0,1,2,3, 255/256 and 65535/65536 payload crossings, 2^24-1 cap (quick: 3 types, thorough: all)} x value patterns x Go argument type and shape (scalars, slice, mixed, numeric strings, shortcut constructors); all list trees with <= N nodes over 8 leaves; chains depth 0..64; bushy chains (empty sibling lists before and beside a deep list, depth <= 64, up to 200 lists per message); wide lists at slab boundaries and at 255/256/65535/65536 children. non-trivial = not the empty item; every enumerated case is distinct by construction (desc string is unique)")
 		c.Assume("ref/e5 reference encoder/decoder written from SEMI E5 section 9", "Go runtime")
 		caps := []byte{e5.I2, e5.ASCII, e5.F8}
 		nodes := 5
@@ -183,6 +183,14 @@ func TestCheck(t *testing.T) {
 func extras(run func(gen.Case) bool) {
 	for d := 0; d <= 64; d++ {
 		if !run(gen.Chain(d)) {
+			return
+		}
+	}
+	// closed (empty) lists before and beside deep ones: the depth limit is about nesting, not
+	// about how many lists a message contains
+	for _, b := range [][4]int{{1, 0, 0, 64}, {1, 0, 0, 65}, {1, 0, 0, 200}, {2, 1, 63, 2}, {2, 1, 64, 64}, {31, 1, 40, 0}, {31, 1, 40, 1},
+		{63, 1, 1, 1}, {63, 0, 0, 2}, {64, 1, 1, 0}, {64, 63, 1, 0}, {63, 62, 1, 1}, {63, 62, 2, 3}, {33, 32, 3, 0}} {
+		if !run(gen.Bushy(b[0], b[1], b[2], b[3])) {
 			return
 		}
 	}
